@@ -1114,7 +1114,7 @@ def m_vec_clear(engine, ctx, args, callee, frame):
     return unit()
 
 
-@model(r"^<(std::vec::)?Vec<.*> as Clone>::clone$|^<\[.*\] as ToOwned>::to_owned$|^core::slice::<impl \[.*\]>::to_vec$|^<(std::string::)?String as Clone>::clone$|^<str as ToOwned>::to_owned$|^<str as ToString>::to_string$|^<(std::string::)?String as From<&str>>::from$|^<&str as Into<(std::string::)?String>>::into$|^(std::string::)?String::as_str$|^core::str::<impl str>::as_bytes$|^(std::string::)?String::as_bytes$|^<(std::string::)?String as (std::ops::)?Deref>::deref$|^<(std::string::)?String as AsRef<str>>::as_ref$|^<(std::string::)?String as ToString>::to_string$|^<str as AsRef<\[u8\]>>::as_ref$|^<str as AsRef<str>>::as_ref$|^<(std::string::)?String as AsRef<\[u8\]>>::as_ref$|^core::str::<impl str>::to_string$|^core::str::<impl str>::to_owned$|^<(std::string::)?String as Borrow<str>>::borrow$")
+@model(r"^<(std::vec::)?Vec<.*> as Clone>::clone$|^<\[.*\] as ToOwned>::to_owned$|^core::slice::<impl \[.*\]>::to_vec$|^<(std::string::)?String as Clone>::clone$|^<(str|String) as ToOwned>::to_owned$|^<str as ToString>::to_string$|^<(std::string::)?String as From<&str>>::from$|^<&str as Into<(std::string::)?String>>::into$|^(std::string::)?String::as_str$|^core::str::<impl str>::as_bytes$|^(std::string::)?String::as_bytes$|^<(std::string::)?String as (std::ops::)?Deref>::deref$|^<(std::string::)?String as AsRef<str>>::as_ref$|^<(std::string::)?String as ToString>::to_string$|^<str as AsRef<\[u8\]>>::as_ref$|^<str as AsRef<str>>::as_ref$|^<(std::string::)?String as AsRef<\[u8\]>>::as_ref$|^core::str::<impl str>::to_string$|^core::str::<impl str>::to_owned$|^<(std::string::)?String as Borrow<str>>::borrow$")
 def m_clone_seq(engine, ctx, args, callee, frame):
     v = args[0]
     borrow = re.search(r"as_str$|as_bytes$|Deref>::deref$|AsRef<.*>>::as_ref$|Borrow<str>>::borrow$", callee)
@@ -1404,6 +1404,11 @@ def m_odt_add(engine, ctx, args, callee, frame):
     ds, dn = d.fields[0].v, d.fields[1].v
     tn = int_binop("Add", int_cast(ns, 64, True), int_cast(dn, 64, True))    # in (-1e9, 2e9)
     secs = int_binop("Add", s, ds)
+    if ctx.branch(overflow_flag("Add", s, ds)):
+        # the sum of seconds does not even fit an i64: far outside the calendar range
+        if checked:
+            return none()
+        raise Panic("overflow adding duration to date (time crate `Add` panics)", (frame.fn.name if frame else None,), kind="explicit")
     if ctx.branch(int_binop("Ge", tn, Int(10 ** 9, 64, True))):
         tn = int_binop("Sub", tn, Int(10 ** 9, 64, True))
         secs = int_binop("Add", secs, Int(1, 64, True))
@@ -2969,3 +2974,134 @@ def m_odt_eq(engine, ctx, args, callee, frame):
 @model(r"^<(std::vec::)?Vec<.*> as IntoIterator>::into_iter$")
 def m_vec_into_iter(engine, ctx, args, callee, frame):
     return make_seq_iter(engine, ctx, args[0], False)
+
+
+# ------------------------------------------------------------------ probly_search::Index (membership only)
+
+class TextIndexV:
+    """the full-text index is modelled as the set of document keys it was given (ranking is outside)"""
+
+    def __init__(self):
+        self.keys = []
+        self.removed = []
+
+    def clone(self):
+        return self
+
+
+@model(r"^(probly_search::)?Index::<.*>::new$")
+def m_pidx_new(engine, ctx, args, callee, frame):
+    return TextIndexV()
+
+
+@model(r"^(probly_search::)?Index::<.*>::add_document::<")
+def m_pidx_add(engine, ctx, args, callee, frame):
+    idx = deref(args[0])
+    key = args[3]
+    idx.keys.append(key)
+    return unit()
+
+
+@model(r"^(probly_search::)?Index::<.*>::remove_document$")
+def m_pidx_remove(engine, ctx, args, callee, frame):
+    idx = deref(args[0])
+    for i, k in enumerate(idx.keys):
+        if key_eq(engine, ctx, k, args[1]):
+            idx.keys.pop(i)
+            break
+    return unit()
+
+
+@model(r"^(probly_search::)?Index::<.*>::vacuum$")
+def m_pidx_vacuum(engine, ctx, args, callee, frame):
+    return unit()
+
+
+@model(r"^core::str::<impl str>::to_lowercase$|^(std::string::)?String::to_lowercase$")
+def m_to_lowercase(engine, ctx, args, callee, frame):
+    b = as_bytes(engine, args[0])
+    n = ctx.concretize(b.len, 64, "to_lowercase length")
+    out = []
+    for i in range(n):
+        c = b.byte(i)
+        if not c.concrete:
+            raise Untranslatable("to_lowercase of a symbolic character")
+        if c.v >= 0x80:
+            raise Untranslatable("to_lowercase of non-ASCII text")
+        out.append(Int(c.v + 32 if 0x41 <= c.v <= 0x5A else c.v, 8))
+    return bytes_from_ints(out, utf8=True)
+
+
+@model(r"^<(uuid::)?Uuid as (PartialOrd|Ord)>::(cmp|partial_cmp)$")
+def m_uuid_cmp(engine, ctx, args, callee, frame):
+    r = compare_values(engine, ctx, deref(args[0]).fields[0].v, deref(args[1]).fields[0].v)
+    o = ordering(r)
+    return some(o) if callee.endswith("partial_cmp") else o
+
+
+@model(r"^<(std::string::)?String as (PartialOrd|Ord)>::(cmp|partial_cmp)$|^<str as (PartialOrd|Ord)>::(cmp|partial_cmp)$")
+def m_string_cmp(engine, ctx, args, callee, frame):
+    r = compare_values(engine, ctx, deref(args[0]), deref(args[1]))
+    o = ordering(r)
+    return some(o) if callee.endswith("partial_cmp") else o
+
+
+@model(r"^(HashMap|IndexMap|BTreeMap)::<.*>::(keys|values)$")
+def m_map_keys(engine, ctx, args, callee, frame):
+    return map_iter(engine, ctx, get_map(args[0]), callee.split("::")[-1])
+
+
+
+# ------------------------------------------------------------------ more of the time crate
+
+def _div_rem_const(ctx, n, d, name):
+    """truncating signed division of Int n (64 bit) by the positive constant d: (q, r) with fresh variables + lemma"""
+    if n.concrete:
+        q = abs(n.v) // d
+        if n.v < 0:
+            q = -q
+        return Int(q, 64, True), Int(n.v - q * d, 64, True)
+    q = Int(ctx.fresh_bv(name + "_q", 64), 64, True)
+    r = Int(ctx.fresh_bv(name + "_r", 64), 64, True)
+    lim = (1 << 63) // d + 1
+    ctx.add(z3.And(q.z3() >= -lim, q.z3() <= lim, r.z3() > -d, r.z3() < d))
+    ctx.add(q.z3() * z3.BitVecVal(d, 64) + r.z3() == n.z3())
+    ctx.add(z3.Or(r.z3() == 0, (r.z3() < 0) == (n.z3() < 0)))
+    return q, r
+
+
+@model(r"^(time::)?Duration::new$")
+def m_duration_new(engine, ctx, args, callee, frame):
+    """time 0.3 `Duration::new(seconds, nanoseconds)`: carries whole seconds out of the nanoseconds and
+    PANICS ("overflow constructing `time::Duration`") when that carry overflows i64"""
+    secs, nanos = args[0], args[1]
+    n64 = int_cast(nanos, 64, True)
+    q, r = _div_rem_const(ctx, n64, 10 ** 9, "durnew")
+    if ctx.branch(overflow_flag("Add", secs, q)):
+        raise Panic("overflow constructing `time::Duration`", (frame.fn.name if frame else None,), kind="explicit")
+    secs = int_binop("Add", secs, q)
+    pos = int_binop("Gt", secs, Int(0, 64, True))
+    neg = int_binop("Lt", secs, Int(0, 64, True))
+    if ctx.branch(b_and(pos, int_binop("Lt", r, Int(0, 64, True)))):
+        secs = int_binop("Sub", secs, Int(1, 64, True))
+        r = int_binop("Add", r, Int(10 ** 9, 64, True))
+    elif ctx.branch(b_and(neg, int_binop("Gt", r, Int(0, 64, True)))):
+        secs = int_binop("Add", secs, Int(1, 64, True))
+        r = int_binop("Sub", r, Int(10 ** 9, 64, True))
+    return Agg("struct", "Duration", [Cell(secs), Cell(int_cast(r, 32, True))])
+
+
+@model(r"^(time::)?Duration::seconds$")
+def m_duration_seconds(engine, ctx, args, callee, frame):
+    return Agg("struct", "Duration", [Cell(args[0]), Cell(Int(0, 32, True))])
+
+
+@model(r"^(time::)?Duration::milliseconds$")
+def m_duration_millis(engine, ctx, args, callee, frame):
+    q, r = _div_rem_const(ctx, args[0], 1000, "durms")
+    return Agg("struct", "Duration", [Cell(q), Cell(int_cast(int_binop("Mul", r, Int(10 ** 6, 64, True)), 32, True))])
+
+
+from .engine import CONST_MODELS     # noqa: E402
+CONST_MODELS.append((re.compile(r"(^|::)OffsetDateTime::UNIX_EPOCH$"), lambda engine: odt(Int(0, 64, True), Int(0, 32))))
+CONST_MODELS.append((re.compile(r"(^|::)Duration::ZERO$"), lambda engine: Agg("struct", "Duration", [Cell(Int(0, 64, True)), Cell(Int(0, 32, True))])))
